@@ -100,3 +100,33 @@ pub fn fill_model_checking_evidence(ev: &mut Evidence, r: &RunResult) {
 		ev.sample(json!(s), 8);
 	}
 }
+
+// ---- vacuity witnesses -------------------------------------------------------------------------
+use std::collections::BTreeMap;
+use std::sync::Mutex;
+static WITNESS: Mutex<BTreeMap<String, u64>> = Mutex::new(BTreeMap::new());
+
+/// Records that a situation the check relies on was actually reached.
+pub fn witness(name: &str) {
+	let mut g = WITNESS.lock().unwrap();
+	*g.entry(name.to_string()).or_insert(0) += 1;
+}
+pub fn witness_n(name: &str, n: u64) {
+	if n > 0 {
+		let mut g = WITNESS.lock().unwrap();
+		*g.entry(name.to_string()).or_insert(0) += n;
+	}
+}
+pub fn witnesses() -> BTreeMap<String, u64> {
+	WITNESS.lock().unwrap().clone()
+}
+/// Dies (exit 2) if a required witness was never observed – a check that could not have failed.
+pub fn require_witnesses(ev: &mut Evidence, required: &[&str]) {
+	let w = witnesses();
+	ev.set("witnesses", json!(w));
+	for r in required {
+		if w.get(*r).copied().unwrap_or(0) == 0 {
+			mc_common::cli::die(&format!("vacuity guard: witness `{}` never observed", r));
+		}
+	}
+}
